@@ -227,7 +227,7 @@ def main():
                           'booldec - 1', 'booldec 80 8', 'booldec 80 64', 'booldec 80 65', 'booldec ffff 72', 'booldec ffff 73',
                           'f64dec - 1', 'f64dec c0 1', 'f64dec ffff 1', 'f64dec fff8 1', 'br - p:0 r:1', 'br - r:0 b',
                           'br ff r:8 r:56 r:1', 'br ff r:8 r:56 p:0 b', 'br ffffffffffffffffffff r:64 r:16 r:56 b',
-                          'strdec 0a6162 1', 'strdec 01 1', 'sddec 01 1', 'sddec 03 1', 'strdec 03 1', 'sddec 046162 1'):
+                          'strdec feffffffffffffffff01 1', 'strdec feffffffffffffffff014142 1', 'sddec feffffffffffffffff014142 1', 'bddec feffffffffffffffff0141 1', 'strdec 0a6162 1', 'strdec 01 1', 'sddec 01 1', 'sddec 03 1', 'strdec 03 1', 'sddec 046162 1'):
                 trunc_lines.append(extra)
             all_dec = dec_lines + trunc_lines
             _, go_dec = vlib.run_lines(gobin, all_dec)
